@@ -34,6 +34,8 @@ using namespace QXmpp::Private;
 
 // time to try to connect to a SOCKS host (7 seconds)
 const int socksTimeout = 7000;
+// an in-band transfer that sees neither data nor acknowledgement for this long is given up
+const int ibbInactivityTimeout = 120000;
 
 static QString streamHash(const QString &sid, const QString &initiatorJid, const QString &targetJid)
 {
@@ -233,6 +235,7 @@ public:
     // for in-band bytestreams
     // XEP-0047: the sequence counter is 16-bit and wraps to 0 after 65535, on both sides
     quint16 ibbSequence;
+    QTimer *ibbInactivityTimer = nullptr;
 
     // for socks5 bytestreams
     QTcpSocket *socksSocket;
@@ -270,6 +273,21 @@ QXmppTransferJob::QXmppTransferJob(const QString &jid, QXmppTransferJob::Directi
     d->client = client;
     d->direction = direction;
     d->jid = jid;
+
+    // XEP-0047 has no keep-alive: a lost data packet or acknowledgement would leave the job waiting for ever
+    d->ibbInactivityTimer = new QTimer(this);
+    d->ibbInactivityTimer->setSingleShot(true);
+    d->ibbInactivityTimer->setInterval(ibbInactivityTimeout);
+    connect(d->ibbInactivityTimer, &QTimer::timeout, this, [this]() {
+        if (d->method == InBandMethod && d->state == TransferState) {
+            terminate(ProtocolError);
+        }
+    });
+    connect(this, &QXmppTransferJob::progress, d->ibbInactivityTimer, [this]() {
+        if (d->method == InBandMethod && d->state == TransferState) {
+            d->ibbInactivityTimer->start();
+        }
+    });
 }
 
 QXmppTransferJob::~QXmppTransferJob() = default;
@@ -419,6 +437,9 @@ void QXmppTransferJob::setState(QXmppTransferJob::State state)
         d->state = state;
         if (d->state == QXmppTransferJob::TransferState) {
             d->transferStart.start();
+            if (d->method == InBandMethod) {
+                d->ibbInactivityTimer->start();
+            }
         }
         Q_EMIT stateChanged(d->state);
     }
@@ -442,6 +463,7 @@ void QXmppTransferJob::terminate(QXmppTransferJob::Error cause)
     // change state
     d->error = cause;
     d->state = FinishedState;
+    d->ibbInactivityTimer->stop();
 
     // close IO device
     if (d->iodevice && d->deviceIsOwn) {
